@@ -182,11 +182,23 @@ def run_for(prop, jobs=None, baseline=None):
     for r in ex.map(_run_seed, [(prop, n, pf, tuple(baseline))
                                 for n, pf in seeds]):
       seed_results.append(r)
-  benign = load_benign()
+  benign_all = load_benign()
   benign_results = []
   from sa import check as _check  # pylint: disable=g-import-not-at-top
+  from sa import patchlib as _patchlib  # pylint: disable=g-import-not-at-top
   _, _rep0 = _check.run_property(prop, 'quick', write=False)
   base_errs = tuple(_rep0.analysis_errors)
+  # only refactorings of modules this property's rules read
+  touched = {f.module.relpath for f in _rep0.repo.accessed}
+  benign = []
+  for n, pf in benign_all:
+    try:
+      with open(pf, encoding='utf-8') as fh:
+        files = set(_patchlib.parse(fh.read()))
+    except (OSError, _patchlib.PatchError):
+      files = set()
+    if files & touched:
+      benign.append((n, pf))
   with concurrent.futures.ProcessPoolExecutor(max_workers=jobs) as ex:
     for r in ex.map(_run_benign, [(prop, n, pf, tuple(baseline), base_errs)
                                   for n, pf in benign], chunksize=2):
@@ -194,6 +206,7 @@ def run_for(prop, jobs=None, baseline=None):
   bad = [r for r in results + seed_results + benign_results
          if r[1] in ('fail', 'error')]
   summary = {
+      'benign_refactorings_kept': len(benign_all),
       'benign_refactorings_replayed': len(benign),
       'benign_refactorings_silent': sum(1 for r in benign_results
                                         if r[1] == 'ok'),
